@@ -28,7 +28,7 @@ ASSUMPTIONS = [
 ]
 
 OPS = ["place", "place", "cancel", "cancel_part", "update", "replace", "fill", "fill_part", "lapse", "snap", "snap", "process", "process",
-       "process_dup", "task", "task", "task_race", "task_race", "quiesce", "restart", "foreign"]
+       "process_dup", "task", "task", "task_race", "task_race", "task_fail", "quiesce", "restart", "foreign"]
 
 
 @st.composite
@@ -51,6 +51,10 @@ def schedule(draw, tier="quick"):
             if k == "task_race":
                 op["race"] = draw(st.lists(st.sampled_from(["fill", "fill_part", "snap+process", "snap+process", "process", "lapse", "request"]), min_size=1, max_size=3))
                 op["o"] = draw(st.integers(0, 5))
+        elif k == "task_fail":
+            # the API call of a queued package fails in transit n times in a row (4 = every attempt: retries exhausted)
+            op.update(k=draw(st.integers(0, 3)), n=draw(st.sampled_from([1, 2, 4, 4])),
+                      transport=draw(st.sampled_from(["connection", "timeout", "http500", "garbage", "rpc-error"])))
         elif k == "process":
             op["n"] = draw(st.integers(1, 3))
         elif k == "foreign":
@@ -218,6 +222,15 @@ class Driver:
 
                     lab.call_plan.append({"hook": hook})
                 lab.run_task(op.get("k", 0))
+            elif k == "task_fail":
+                if not lab.pool.queue:
+                    return
+                lab.call_plan = [{"transport": op["transport"]} for _ in range(op["n"])]
+                lab.run_task(op.get("k", 0))
+                lab.run_all()  # the retries are queued again by the handler
+                lab.call_plan = []
+                self.classes.add("api-call-failed-%s" % ("on-every-attempt" if op["n"] >= 4 else "then-recovered"))
+                self.nontrivial = True
             elif k == "quiesce":
                 self.quiesce()
             elif k == "restart":
